@@ -90,6 +90,7 @@ structure Cfg where
   bodySkipsNil : Bool                  -- decodeMapBodyInto leaves the field alone for a msgpack nil entry
   emptyLenZero : Bool                  -- isFieldEmpty: a non-nil slice / map of length 0 counts as empty
   emptyNegZero : Bool                  -- isFieldEmpty: `value.Float() == 0`, which also holds for -0
+  voidClearsContent : Bool             -- server: SetContentVoid replaces a typed content (false: it leaves it in place)
   deriving DecidableEq, Repr
 
 /-- the container codec (gob / msgpack): what comes back for what went in -/
@@ -197,6 +198,24 @@ def valueRT (cfg : Cfg) (lib : Lib) (k : Kind) (om : Bool) (v : Val) : Res :=
          | none => .ok (zero k))
       else .ok (.time s n)
   | .stru _ => if cfg.structValueEncoded then .ok v else .ok (zero k)
+
+/-- nothing typed is sent for this value (the server then sets the treasure void) -/
+def sendsVoid (cfg : Cfg) (k : Kind) (om : Bool) (v : Val) : Bool :=
+  (om && isEmpty cfg k v) ||
+  (match v with
+   | .bytes none => true
+   | .cont none => k == .ptr
+   | .time _ _ => isEmpty cfg k v
+   | .stru _ => !cfg.structValueEncoded
+   | _ => false)
+
+/-- save `v1`, save `v2` over it, read (value slot / profile field) -/
+def valueUpdRT (cfg : Cfg) (lib : Lib) (k : Kind) (om : Bool) (v1 v2 : Val) : Res :=
+  if sendsVoid cfg k om v2 && !cfg.voidClearsContent && !sendsVoid cfg k om v1 then
+    (match valueRT cfg lib k om v2 with
+     | .err => .err
+     | .ok _ => valueRT cfg lib k om v1)       -- the void write left the first value's content in place
+  else valueRT cfg lib k om v2
 
 /-! ### map-body slot -/
 
